@@ -413,3 +413,7 @@ func attr(e abci.Event, key string) (string, bool) {
 }
 
 var feeCollector = common.BytesToAddress(authtypes.NewModuleAddress(authtypes.FeeCollectorName))
+
+func bankSend(from, to sdk.AccAddress, coins sdk.Coins) sdk.Msg {
+	return banktypes.NewMsgSend(from, to, coins)
+}
